@@ -41,7 +41,7 @@ class RunCtx:
             raise Inconclusive("call-back cap reached")
         if name == 'initial_state_dist':
             self.last = ('init',)
-        elif name == 'next_state_dist':
+        elif name == 'next_state_dist' and len(ids) >= 2:
             self.last = ('succ', ids[0], ids[1])
         for h in self.cb_hooks:
             h(name, ids)
